@@ -185,6 +185,8 @@ pub struct Session<'a> {
     pub stats: Rc<RefCell<Stats>>,
     pub data: Rc<Vec<u8>>,
     pub ops_done: u64,
+    /// bytes the source delivered during the last executed operation (C16, volume form)
+    pub last_bytes: u64,
 }
 
 impl<'a> Session<'a> {
@@ -288,6 +290,7 @@ impl<'a> Session<'a> {
         let content = &self.content;
         let cur = &mut self.cursors[c - 1];
         let before = self.stats.borrow().abs_seeks;
+        let bytes_before = self.stats.borrow().read_bytes;
         let r = catch_unwind(AssertUnwindSafe(|| {
             let res = match op {
                 Op::First => cur.move_on_first(),
@@ -310,6 +313,7 @@ impl<'a> Session<'a> {
             }
         }));
         let loads = self.stats.borrow().abs_seeks - before;
+        self.last_bytes = self.stats.borrow().read_bytes - bytes_before;
         self.ops_done += 1;
         match r {
             Ok(x) => (x, loads),
@@ -320,7 +324,7 @@ impl<'a> Session<'a> {
     pub fn op(&mut self, c: usize, op: &Op) -> i64 {
         let (res, loads) = self.exec(c, op);
         let q = op.probe().map(|q| self.probe_id(q)).unwrap_or(0);
-        self.out.ev(json!({"ev": "Op", "c": c, "op": op.name(), "q": q, "res": res, "loads": loads}));
+        self.out.ev(json!({"ev": "Op", "c": c, "op": op.name(), "q": q, "res": res, "loads": loads, "bytes": self.last_bytes}));
         res
     }
 
@@ -328,10 +332,12 @@ impl<'a> Session<'a> {
     pub fn scan(&mut self, c: usize, fwd: bool) {
         let mut out: Vec<i64> = Vec::new();
         let mut maxloads = 0;
+        let mut maxbytes = 0;
         let limit = self.content.len() + 3;
         loop {
             let (res, loads) = self.exec(c, if fwd { &Op::Next } else { &Op::Prev });
             maxloads = maxloads.max(loads);
+            maxbytes = maxbytes.max(self.last_bytes);
             if res == 0 {
                 break;
             }
@@ -340,7 +346,7 @@ impl<'a> Session<'a> {
                 break;
             }
         }
-        self.out.ev(json!({"ev": "Scan", "c": c, "dir": if fwd {"fwd"} else {"bwd"}, "out": out, "maxloads": maxloads}));
+        self.out.ev(json!({"ev": "Scan", "c": c, "dir": if fwd {"fwd"} else {"bwd"}, "out": out, "maxloads": maxloads, "maxbytes": maxbytes}));
     }
 }
 
@@ -407,6 +413,7 @@ pub fn build_and_log(
     out.ev(json!({"ev": "Written", "kind": "list", "keys": keys, "n": keys.len(), "base": 0, "step": 1,
         "codec": cfg.codec, "levels": cfg.levels, "ver": ver, "cfg": cfg.json(), "writer": writer,
         "ins": outcome.ins, "fin": outcome.fin, "detail": outcome.detail,
+        "maxblk": outcome.bytes.as_ref().map(|b| crate::decode::max_stored(b, 22)).unwrap_or(0),
         "size": outcome.bytes.as_ref().map(|b| b.len()).unwrap_or(0)}));
     let bytes = outcome.bytes.map(|b| if ver == 1 { to_v1(&b) } else { b });
     (dict, bytes.map(Rc::new))
@@ -421,6 +428,7 @@ fn new_session<'a>(out: &'a mut TraceOut, entries: Vec<Entry>, dict: Dict, data:
         stats: Rc::new(RefCell::new(Stats::default())),
         data,
         ops_done: 0,
+        last_bytes: 0,
     }
 }
 
@@ -757,7 +765,8 @@ pub fn scn_big(out: &mut TraceOut, r: &mut R, n: u32, nops: usize) {
     let bytes = w.into_inner();
     out.ev(json!({"ev": "Written", "kind": "arith", "keys": [], "n": n, "base": base, "step": step,
         "codec": cfg.codec, "levels": cfg.levels, "ver": 2, "cfg": cfg.json(), "ins": ins,
-        "fin": if bytes.is_ok() {"ok"} else {"err"}, "detail": "", "size": bytes.as_ref().map(|b| b.len()).unwrap_or(0)}));
+        "fin": if bytes.is_ok() {"ok"} else {"err"}, "detail": "", "size": bytes.as_ref().map(|b| b.len()).unwrap_or(0),
+        "maxblk": bytes.as_ref().map(|b| crate::decode::max_stored(b, 22)).unwrap_or(0)}));
     let Ok(bytes) = bytes else { return };
     let mut s = Session {
         out,
@@ -767,6 +776,7 @@ pub fn scn_big(out: &mut TraceOut, r: &mut R, n: u32, nops: usize) {
         stats: Rc::new(RefCell::new(Stats::default())),
         data: Rc::new(bytes),
         ops_done: 0,
+        last_bytes: 0,
     };
     // long purely sequential scans (read-ahead or caching schemes only show after many crossings)
     if n <= 100_000 {
@@ -934,7 +944,7 @@ pub fn replay_histories(out: &mut TraceOut, corner: usize, hists: &[Vec<(String,
             };
             let (res, loads) = s.exec(c, &o);
             let qid = o.probe().map(|p| s.dict.as_ref().unwrap().id(p)).unwrap_or(0);
-            s.out.ev(json!({"ev": "Op", "c": c, "op": o.name(), "q": qid, "res": res, "loads": loads}));
+            s.out.ev(json!({"ev": "Op", "c": c, "op": o.name(), "q": qid, "res": res, "loads": loads, "bytes": s.last_bytes}));
             compared += 1;
             // Level-B comparison (drift): the model predicts the answer AND the number of block loads
             if res != *expect || loads != *expect_loads {
